@@ -50,8 +50,19 @@
 //!    command also issued through the user-facing `System::cancel_orders / close_positions` handle; long inputs:
 //!    one instrument tracking up to 1100 (4200) orders, worlds of 1..=64 (200) instruments; close-positions answered
 //!    by the library's own `DefaultStrategy`; every first command also while all market / account streams report
-//!    `Reconnecting`, and with a risk manager that refuses everything; filters built through the public constructors
+//!    `Reconnecting`, and with a risk manager that refuses everything (there only wrong requests are flagged: the
+//!    statement does not say whether commands bypass the risk manager); filters built through the public constructors
 //!    `InstrumentFilter::exchanges(..)` etc.
+
+//!
+//! Soundness round (false alarms removed; the benign changes are in `out/benign/C19_ok_*.patch`):
+//!  * risk manager refusing everything: only wrong requests are flagged (the statement does not say whether commands
+//!    bypass the risk manager);
+//!  * filters naming a NON-EXISTENT exchange / instrument index are outside the quantifier ("every subset of exchanges, of
+//!    instruments"): only wrong requests are flagged, a panic is not judged (`W::names_unknown_index`);
+//!  * the scripted close-positions strategy (`CStrategy`) never reuses the client order id of an order the instrument
+//!    still tracks (the default strategy's random ids do not collide either): a repeated close-positions command used to
+//!    collide with its own first closing order.
 
 use super::c03::{fresh_state, mk_engine};
 use super::common::*;
@@ -68,7 +79,13 @@ use barter::{
         },
     },
     execution::{AccountStreamEvent, request::ExecutionRequest},
-    strategy::DefaultStrategy,
+    strategy::{
+        DefaultStrategy,
+        algo::AlgoStrategy,
+        close_positions::{ClosePositionsStrategy, close_open_positions_with_market_orders},
+        on_disconnect::OnDisconnectStrategy,
+        on_trading_disabled::OnTradingDisabled,
+    },
 };
 use barter_data::{
     event::{DataKind, MarketEvent},
@@ -88,7 +105,7 @@ use barter_execution::{
 use barter_instrument::{
     Side, Underlying,
     asset::AssetIndex,
-    exchange::ExchangeIndex,
+    exchange::{ExchangeId, ExchangeIndex},
     index::IndexedInstruments,
     instrument::InstrumentIndex,
 };
@@ -190,8 +207,9 @@ pub struct Env {
     /// stream of every exchange report `Reconnecting` (the state-reaching events had made the streams of the
     /// exchanges they touched healthy)
     reconnecting: bool,
-    /// the configured risk manager refuses every request it is shown: user commands are not algorithmic
-    /// orders, the statement does not make them conditional on the risk manager
+    /// the configured risk manager refuses every request it is shown. The statement is silent on whether user
+    /// commands are shown to the risk manager: whatever IS requested must still be right (scope, side, quantity,
+    /// ids, no duplicates, outside-filter instruments untouched), but nothing has to be requested
     risk_refuses: bool,
 }
 const PLAIN: Env = Env { links: HEALTHY, trading_enabled: false, after_failed_send: false, via_system: false, default_strategy: false, reconnecting: false, risk_refuses: false };
@@ -310,6 +328,17 @@ impl W {
             FSpec::Ex(v, _) => v.contains(&self.ex_of[i]),
             FSpec::Ins(v, _) => v.contains(&i),
             FSpec::Und(v, _) => v.contains(&self.und_of[i]),
+        }
+    }
+
+    /// does the filter name an exchange / instrument index that does not exist in this engine? The statement
+    /// quantifies over subsets of the EXISTING exchanges / instruments: what an engine does with such a filter
+    /// (ignore the unknown entry, refuse the whole command, panic like every other lookup by index) is not fixed.
+    fn names_unknown_index(&self, f: &FSpec) -> bool {
+        match f {
+            FSpec::Ex(v, _) => v.iter().any(|e| *e >= self.n_ex),
+            FSpec::Ins(v, _) => v.iter().any(|i| *i >= self.n_ins),
+            _ => false,
         }
     }
 
@@ -581,6 +610,64 @@ fn reach(w: &W, cfg: &[IC]) -> Result<EState, String> {
     Ok(es)
 }
 
+/// The close-positions strategy of every evaluation that does not run the library's `DefaultStrategy`: the library's
+/// `close_open_positions_with_market_orders` (what `DefaultStrategy` calls) with a DETERMINISTIC client order id
+/// that - like the random ids of the default strategy - never collides with an order the instrument still tracks:
+/// `close-<instrument>-<number of orders tracked on it>` (a repeated close-positions command finds the first closing
+/// order in flight, so the number has grown). `common::ScriptStrategy` reuses `close-<instrument>` for every command:
+/// an engine / strategy helper that declines to generate or send a request whose client order id is still in use
+/// would be blamed for a collision that only the harness' id scheme produces (the statement is about the default
+/// strategy, whose ids do not collide).
+#[derive(Debug, Clone, Default)]
+pub struct CStrategy {
+    id: StrategyId2,
+}
+impl AlgoStrategy for CStrategy {
+    type State = EState;
+    fn generate_algo_orders(
+        &self,
+        _: &Self::State,
+    ) -> (
+        impl IntoIterator<Item = OrderRequestCancel<ExchangeIndex, InstrumentIndex>>,
+        impl IntoIterator<Item = OrderRequestOpen<ExchangeIndex, InstrumentIndex>>,
+    ) {
+        (Vec::new(), Vec::new())
+    }
+}
+impl ClosePositionsStrategy for CStrategy {
+    type State = EState;
+    fn close_positions_requests<'a>(
+        &'a self,
+        state: &'a Self::State,
+        filter: &'a InstrumentFilter<ExchangeIndex, AssetIndex, InstrumentIndex>,
+    ) -> (
+        impl IntoIterator<Item = OrderRequestCancel<ExchangeIndex, InstrumentIndex>> + 'a,
+        impl IntoIterator<Item = OrderRequestOpen<ExchangeIndex, InstrumentIndex>> + 'a,
+    )
+    where
+        ExchangeIndex: 'a,
+        AssetIndex: 'a,
+        InstrumentIndex: 'a,
+    {
+        close_open_positions_with_market_orders(&self.id.0, state, filter, |state| {
+            ClientOrderId::new(format!("close-{}-{}", state.key.index(), state.orders.0.len()))
+        })
+    }
+}
+impl<C, S, T, R> OnDisconnectStrategy<C, S, T, R> for CStrategy {
+    type OnDisconnect = ExchangeId;
+    fn on_disconnect(_: &mut Engine<C, S, T, Self, R>, exchange: ExchangeId) -> ExchangeId {
+        exchange
+    }
+}
+impl<C, S, T, R> OnTradingDisabled<C, S, T, R> for CStrategy {
+    type OnTradingDisabled = u32;
+    fn on_trading_disabled(_: &mut Engine<C, S, T, Self, R>) -> u32 {
+        0
+    }
+}
+type CEngine = Engine<ScriptClock, EState, STxMap, CStrategy, ScriptRisk>;
+
 /// The user-facing handle: a real `System` value (its tasks are placeholders that never run) whose feed
 /// receiver the harness holds. `System::cancel_orders / close_positions` put events on the feed; they are
 /// taken off again and handed to the engine under test.
@@ -631,7 +718,14 @@ fn eval(w: &W, es: &EState, refm: &mut [RefIns], f: &FSpec, cmd: Cmd, env: Env, 
     // can a request for instrument i be sent at all? / is completeness demanded for the sendable ones?
     let sendable = |i: usize| env.links[w.ex_of[i].min(2)] == Link::Healthy;
     let faulty = env.links != HEALTHY;
-    let complete = env.links.iter().all(|l| matches!(l, Link::Healthy | Link::Unhealthy));
+    // The statement does not say whether user commands pass the configured risk manager (it quantifies over engine
+    // states, filters and commands, not over risk managers): an engine that shows the commands' requests to the risk
+    // manager keeps the statement whenever the risk manager approves. With a risk manager that refuses everything
+    // only the "nothing wrong is requested" rules are kept (no completeness), as for an unrecoverable link fault.
+    // A filter naming a non-existent exchange / instrument index is outside the statement's quantifier: again only
+    // the "nothing wrong is requested" rules are kept, and a panic is not judged.
+    let unknown_index = w.names_unknown_index(f);
+    let complete = env.links.iter().all(|l| matches!(l, Link::Healthy | Link::Unhealthy)) && !env.risk_refuses && !unknown_index;
     // abstract context of the rule, part of the signature (empty in the plain case: signatures stay stable)
     let tag = if env.after_failed_send {
         "/after-failed-send"
@@ -651,11 +745,13 @@ fn eval(w: &W, es: &EState, refm: &mut [RefIns], f: &FSpec, cmd: Cmd, env: Env, 
         ""
     };
     let risk = ScriptRisk { refuse_opens: env.risk_refuses, refuse_cancels: env.risk_refuses };
-    let (mut engine, txs) = mk_engine(&w.instruments, es.clone(), &modes, ScriptStrategy::default(), risk);
+    // one recording link per exchange (as `c03::mk_engine` builds them), around an engine with `CStrategy`
+    let txs: Vec<Option<ScriptTx>> = (0..w.n_ex).map(|i| modes.get(i).copied().unwrap_or(Some(TxMode::Healthy)).map(ScriptTx::new)).collect();
+    let tx_map = || MultiExchangeTxMap::from_iter(w.instruments.exchanges().iter().zip(&txs).map(|(e, t)| (e.value, t.clone())));
+    let mut engine: CEngine = Engine::new(ScriptClock::default(), es.clone(), tx_map(), CStrategy::default(), risk);
     // the same links and state around the library's DefaultStrategy
     let mut engine_default = env.default_strategy.then(|| {
-        let map = MultiExchangeTxMap::from_iter(w.instruments.exchanges().iter().zip(&txs).map(|(e, t)| (e.value, t.clone())));
-        Engine::new(ScriptClock::default(), es.clone(), map, DefaultStrategy::<EState>::default(), ScriptRisk::default())
+        Engine::new(ScriptClock::default(), es.clone(), tx_map(), DefaultStrategy::<EState>::default(), ScriptRisk::default())
     });
     if env.trading_enabled {
         let _ = engine.process(EngineEvent::TradingStateUpdate(TradingState::Enabled));
@@ -690,7 +786,9 @@ fn eval(w: &W, es: &EState, refm: &mut [RefIns], f: &FSpec, cmd: Cmd, env: Env, 
     }))
     .is_err()
     {
-        out.push((format!("C19/{cname}/{fk}/panic{tag}"), format!("Engine::process panicked on {cmd:?} {f:?} {env:?}")));
+        if !unknown_index {
+            out.push((format!("C19/{cname}/{fk}/panic{tag}"), format!("Engine::process panicked on {cmd:?} {f:?} {env:?}")));
+        }
         return None;
     }
     let post = match engine_default {
@@ -1281,13 +1379,14 @@ pub fn run(ctx: &Ctx) -> Outcome {
         assumptions: vec![
             "engine states are those reachable by SendOpenRequests / order snapshots / SendCancelRequests / trades / market trades on healthy links with trading disabled".into(),
             "client order ids are unique per instrument, not globally: instruments 0 and 2 (and 1 and 3) track orders with the same id strings; an order is addressed by instrument + client order id".into(),
-            "user commands are not conditional on the configured risk manager (the engine bypasses it for commands): every first command also with a risk manager that refuses every request shown to it".into(),
+            "the statement does not say whether user commands pass the configured risk manager: every first command also with a risk manager that refuses every request shown to it, where only wrong requests are flagged (an engine may bypass the risk manager for commands, as the current one does, or obey it)".into(),
             "connectivity is engine state the statement does not condition on: every first command also with all market and account streams reporting Reconnecting".into(),
             "a command issued through System::cancel_orders / close_positions is judged by what the engine does with everything the handle put on the engine feed".into(),
             "4 instruments on 2 exchanges; full product of a per-instrument menu plus all 256 per-instrument states (32 order sets x {none, long 2, short 3, long 0.500000000001} x price known/unknown) on each instrument against a background".into(),
             "a request that could not be sent (failing execution link) is not in flight: the order is still 'not already being cancelled'; with a recoverable fault on one link the requests for the other link are still demanded exactly; with an unrecoverable fault (engine about to shut down) only wrong requests are flagged".into(),
             "a filter that names an element twice has the same scope as the filter naming it once".into(),
-            "the close-positions strategy is close_open_positions_with_market_orders with a deterministic client order id per instrument; in the 'default-strategy' evaluations it is the library's DefaultStrategy (random client order ids, which are not compared)".into(),
+            "filters naming an exchange / instrument index that does not exist in the engine are outside the quantifier (subsets of the existing ones): they are still issued, but only wrong requests are flagged (no completeness, a panic is not judged)".into(),
+            "the close-positions strategy is close_open_positions_with_market_orders with a deterministic client order id per instrument and number of orders it tracks (never the id of an order still tracked there, like the random ids of the default strategy); in the 'default-strategy' evaluations it is the library's DefaultStrategy (random client order ids, which are not compared)".into(),
             "tracked orders differ in side and time in force by kind (open: sell / post-only, partially filled: good until end of day, ...); the scope of a cancel command does not depend on an order's terms".into(),
             "only side, quantity, instrument and exchange of a closing order are demanded (the statement does not fix kind / price / time in force)".into(),
         ],
